@@ -26,6 +26,34 @@
 using namespace iora::network;
 using vfnet::TK;
 
+// ---- harness-local pthread_mutex_unlock interposer (not under TSan, which owns the mutex entry
+// points): a flagged caller thread is held for a seeded 0.2 ms .. tlsPostUnlockMaxUs right AFTER it
+// released a mutex — a legal pre-emption point. It stretches every "lock dropped, still inside the
+// transport" window of the blocking calls (e.g. connectSync's timeout path between lk.unlock() and
+// its return) from a few instructions to milliseconds, so that a teardown timed around the call's
+// expiry can land inside it. Seeded per thread; about every second unlock is held.
+static thread_local uint32_t tlsPostUnlockMaxUs = 0;
+static thread_local uint64_t tlsPostUnlockSeed = 0;
+static std::atomic<uint64_t> gPostUnlockHolds{0};
+#if !VF_TSAN
+extern "C" int pthread_mutex_unlock(pthread_mutex_t *m)
+{
+  using Fn = int (*)(pthread_mutex_t *);
+  static Fn real = vf::shim::real<Fn>("pthread_mutex_unlock");
+  int r = real(m);
+  if (uint32_t mx = tlsPostUnlockMaxUs)
+  {
+    uint64_t x = vf::shim::mix(tlsPostUnlockSeed += 0x9e3779b97f4a7c15ull);
+    if (x & 1)
+    {
+      gPostUnlockHolds.fetch_add(1, std::memory_order_relaxed);
+      vf::shim::rawSleepUs(200 + (x >> 8) % (mx > 200 ? mx - 200 + 1 : 1));
+    }
+  }
+  return r;
+}
+#endif
+
 static const uint64_t kDeadlineMs = 15000;
 static const int kParkTimeoutMs = 60000;
 
@@ -118,6 +146,9 @@ struct Worker
   std::atomic<bool> inCall{false};
   std::atomic<bool> done{false};
   std::atomic<bool> parkedBefore{false}; // was blocked in its call when teardown began
+  bool edge = false;                     // short-timeout caller whose expiry is aimed at the teardown moment
+  std::atomic<bool> pastExpiryAtTeardown{false};
+  int timeoutMs = 0;
   // result of a blocking call
   bool ok = false; int code = -1; std::string msg; bool flushRet = false; bool threw = false; std::string what;
   uint64_t t0 = 0, t1 = 0;
@@ -161,13 +192,15 @@ static bool runIter(uint64_t seed, uint64_t idx, int onlyTd, int onlyProto)
   int nFlush = int(rng.below(3));
   if (rng.chance(0.15)) { nParkConn = udp ? 0 : 1; nParkRecv = 1; nFlush = 1; }
   int nRacers = destroying ? 0 : int(rng.below(4));
+  int nEdgeConn = (!udp && rng.chance(0.6)) ? int(rng.range(1, 3)) : 0;
+  int nEdgeRecv = rng.chance(0.4) ? int(rng.range(1, 2)) : 0;
   int nStorm = selfDestruct ? 0 : int(rng.range(1, 4));
   uint32_t slowClose = rng.chance(0.6) ? uint32_t(rng.range(50, 1500)) : 0;
   uint32_t cvDelay = rng.chance(0.6) ? uint32_t(rng.range(100, 3000)) : 0;
   int cycles = td == Cycles ? int(rng.range(2, 4)) : 1;
-  char desc[256];
-  snprintf(desc, sizeof desc, "{\"idx\":%llu,\"proto\":\"%s\",\"teardown\":\"%s\",\"park_connect\":%d,\"park_recv\":%d,\"flushers\":%d,\"racers\":%d,\"storm\":%d,\"slow_close_us\":%u,\"cv_delay_us\":%u}",
-           (unsigned long long)idx, udp ? "udp" : "tcp", kTd[td], nParkConn, nParkRecv, nFlush, nRacers, nStorm, slowClose, cvDelay);
+  char desc[384];
+  snprintf(desc, sizeof desc, "{\"idx\":%llu,\"proto\":\"%s\",\"teardown\":\"%s\",\"park_connect\":%d,\"park_recv\":%d,\"flushers\":%d,\"racers\":%d,\"storm\":%d,\"edge_connect\":%d,\"edge_recv\":%d,\"slow_close_us\":%u,\"cv_delay_us\":%u}",
+           (unsigned long long)idx, udp ? "udp" : "tcp", kTd[td], nParkConn, nParkRecv, nFlush, nRacers, nStorm, nEdgeConn, nEdgeRecv, slowClose, cvDelay);
   g_curDesc = desc;
   O.line(std::string("{\"t\":\"begin\",\"idx\":") + std::to_string(idx) + ",\"scn\":\"" + kTd[td] + ":" + (udp ? "udp" : "tcp") + "\",\"desc\":" + desc + "}");
   const std::string tdp = std::string(kTd[td]) + ":" + (udp ? "udp" : "tcp");
@@ -184,10 +217,10 @@ static bool runIter(uint64_t seed, uint64_t idx, int onlyTd, int onlyProto)
   {
     echo.reset(new vfnet::Target(TK::Accept, nullptr, seed + idx));
     if (td == DropInOnClose || td == DropInOnData || td == StopFromCb) { trig.reset(new vfnet::Target(TK::Accept, nullptr, seed + idx + 1)); trig->setPollMs(1); }
-    if (nParkConn || nRacers)
+    if (nParkConn || nRacers || nEdgeConn)
     {
       bh.reset(new vfnet::Target(TK::Blackhole, nullptr, seed + idx + 2));
-      if (!bh->blackholeVerified()) { O.obs("blackhole_setup_failed"); nParkConn = 0; bh.reset(); }
+      if (!bh->blackholeVerified()) { O.obs("blackhole_setup_failed"); nParkConn = 0; nEdgeConn = 0; bh.reset(); }
     }
   }
   else uecho.reset(new vfnet::UdpEcho());
@@ -254,7 +287,7 @@ static bool runIter(uint64_t seed, uint64_t idx, int onlyTd, int onlyProto)
       return r.isOk() ? r.value() : 0;
     };
     bool setupOk = true;
-    for (int i = 0; i < nParkRecv + nRacers && setupOk; i++) { SessionId s = mk(echo.get()); if (!s) setupOk = false; else recvSids.push_back(s); }
+    for (int i = 0; i < nParkRecv + nRacers + nEdgeRecv && setupOk; i++) { SessionId s = mk(echo.get()); if (!s) setupOk = false; else recvSids.push_back(s); }
     for (int i = 0; i < nFlush + (nRacers ? 1 : 0) && setupOk; i++) { SessionId s = mk(echo.get()); if (!s) setupOk = false; else flushSids.push_back(s); }
     for (int i = 0; i < 3 && setupOk; i++) { SessionId s = mk(echo.get()); if (!s) setupOk = false; else spare.push_back(s); }
     if (setupOk && (td == DropInOnClose || td == DropInOnData || td == StopFromCb))
@@ -294,21 +327,24 @@ static bool runIter(uint64_t seed, uint64_t idx, int onlyTd, int onlyProto)
     std::atomic<bool> tdBegun{false};
     std::atomic<uint64_t> tdT0{0};
     Transport *raw = t.get();
-    auto blockingCall = [&](Worker *w, Transport *tp, int op, SessionId sid) {
+    auto blockingCall = [&](Worker *w, Transport *tp, int op, SessionId sid, int timeoutMs = kParkTimeoutMs, uint32_t postUnlockUs = 0, uint64_t puSeed = 0) {
       w->op = op;
+      w->timeoutMs = timeoutMs;
       w->t0 = vf::nowNs();
       w->inCall = true;
+      tlsPostUnlockSeed = puSeed;
+      tlsPostUnlockMaxUs = postUnlockUs;
       try
       {
         if (op == OpConnectSync)
         {
-          auto r = tp->connectSync("127.0.0.1", bh ? bh->port() : 9, TlsMode::None, std::chrono::milliseconds(kParkTimeoutMs));
+          auto r = tp->connectSync("127.0.0.1", bh ? bh->port() : 9, TlsMode::None, std::chrono::milliseconds(timeoutMs));
           w->ok = r.isOk(); if (!w->ok) { w->code = int(r.error().code); w->msg = r.error().message; } else tp->close(r.value());
         }
         else if (op == OpReceiveSync)
         {
           char b[256]; size_t l = sizeof b;
-          auto r = tp->receiveSync(sid, b, l, std::chrono::milliseconds(kParkTimeoutMs));
+          auto r = tp->receiveSync(sid, b, l, std::chrono::milliseconds(timeoutMs));
           w->ok = r.isOk(); if (!w->ok) { w->code = int(r.error().code); w->msg = r.error().message; }
         }
         else
@@ -320,6 +356,7 @@ static bool runIter(uint64_t seed, uint64_t idx, int onlyTd, int onlyProto)
         }
       }
       catch (const std::exception &ex) { w->threw = true; w->what = ex.what(); }
+      tlsPostUnlockMaxUs = 0;
       w->inCall = false;
       w->t1 = vf::nowNs();
     };
@@ -405,9 +442,58 @@ static bool runIter(uint64_t seed, uint64_t idx, int onlyTd, int onlyProto)
     }
     vf::sleepMs(0.2 * double(rng.below(15)));
 
+    // ---- edge callers: short timeouts (black-holed connectSync / silent receiveSync) whose expiry is
+    // aimed at the teardown moment, held after every other mutex release by the unlock interposer.
+    // Raw-pointer callers like the parkers; teardown may only begin once every one of them that has
+    // not returned yet is counted by the transport (from then on it is the transport's job to wait).
+    size_t firstEdge = W.size();
+    int edgeMs = int(rng.range(2, 10));
+    uint32_t edgeHoldUs = uint32_t(rng.range(800, 5000));
+    for (int i = 0; i < nEdgeConn && bh; i++)
+    {
+      W.emplace_back(new Worker()); Worker *w = W.back().get(); w->edge = true; uint64_t ps = rng.next();
+      w->th = std::thread([&, w, ps] { blockingCall(w, raw, OpConnectSync, 0, edgeMs, edgeHoldUs, ps); w->done = true; });
+    }
+    for (int i = 0; i < nEdgeRecv; i++)
+    {
+      W.emplace_back(new Worker()); Worker *w = W.back().get(); w->edge = true; uint64_t ps = rng.next();
+      SessionId sEdge = recvSids[size_t(nParkRecv + nRacers + i)];
+      w->th = std::thread([&, w, sEdge, ps] { blockingCall(w, raw, OpReceiveSync, sEdge, edgeMs, edgeHoldUs, ps); w->done = true; });
+    }
+    size_t lastEdge = W.size();
+    if (lastEdge > firstEdge)
+    {
+      uint64_t e0 = vf::nowNs(), until = e0 + 8000000000ull;
+      for (;;)
+      {
+        int needConn = 0, needRecv = 0;
+        for (size_t i = firstEdge; i < lastEdge; i++) if (!W[i]->done.load()) { if (W[i]->op.load() == OpReceiveSync) needRecv++; else needConn++; }
+        // parkers that are still blocked are counted too; edge callers come on top of them
+        int longConn = 0, longRecv = 0;
+        for (size_t i = firstParker; i < lastParker; i++) if (!W[i]->done.load() && W[i]->inCall.load()) { if (W[i]->op.load() == OpConnectSync) longConn++; else if (W[i]->op.load() == OpReceiveSync) longRecv++; }
+        Parked p = peek(raw);
+        if (int(p.conn) >= longConn + needConn && int(p.recv) >= longRecv + needRecv) break;
+        if (vf::nowNs() > until) break;
+        vf::sleepMs(0.05);
+      }
+      // aim: expiry of the edge callers (their park began about now, +- the pre-park delay) + jitter
+      double aimMs = double(edgeMs) - 0.3 + 0.1 * double(rng.below(25));
+      double spent = double(vf::nowNs() - e0) / 1e6;
+      if (aimMs > spent) vf::sleepMs(aimMs - spent);
+      O.obs("edge_callers_started", lastEdge - firstEdge);
+    }
+
     // ---- teardown
     Parked hit = peek(raw);
     for (size_t i = firstParker; i < lastParker; i++) W[i]->parkedBefore = W[i]->inCall.load();
+    {
+      uint64_t nowT = vf::nowNs();
+      for (size_t i = firstEdge; i < lastEdge; i++)
+      {
+        W[i]->parkedBefore = W[i]->inCall.load();
+        if (W[i]->inCall.load() && nowT > W[i]->t0 + uint64_t(edgeMs) * 1000000ull) { W[i]->pastExpiryAtTeardown = true; O.obs(std::string("teardown_began_with_") + kOp[W[i]->op.load()] + "_caller_past_its_expiry_not_yet_returned"); }
+      }
+    }
     if (selfDestruct || td == StopFromCb)
     {
       st->trigger = td == DropInOnClose ? 2 : td == DropInOnData ? 3 : 4;
@@ -528,6 +614,17 @@ static bool runIter(uint64_t seed, uint64_t idx, int onlyTd, int onlyProto)
       if (w->threw)
       {
         O.viol(std::string("C05:unexpected-exception:") + kOp[op] + ":" + tdp, std::string(kOp[op]) + " threw during teardown: " + w->what, desc);
+        continue;
+      }
+      if (w->edge)
+      {
+        std::string cls = w->ok ? "ok" : (w->code == int(TransportError::Unknown) && w->msg == "shutdown") ? "closed-by-shutdown" : errName(w->code);
+        O.obs(std::string("edge_") + kOp[op] + "_returned_" + cls);
+        bool fine = op == OpConnectSync ? (!w->ok && (cls == "Timeout" || cls == "ShuttingDown" || cls == "closed-by-shutdown"))
+                                        : (w->ok || cls == "Timeout" || cls == "PeerClosed" || cls == "ShuttingDown");
+        if (!fine) O.viol(std::string("C05:") + kOp[op] + "-result-at-teardown:" + cls + ":" + tdp, std::string(kOp[op]) + " with a short timeout aimed at the teardown moment ended with an unexpected result", desc);
+        sigBits |= uint64_t(1024) << (cls == "Timeout" ? 0 : 1);
+        if (w->pastExpiryAtTeardown.load()) sigBits |= 4096;
         continue;
       }
       if (op == OpConnectSync)
@@ -655,6 +752,7 @@ int main(int argc, char **argv)
 #if !VF_TSAN
   vf::out().obs("condvar_waits_seen_by_shim", vf::shim::condvarPolicy().waits.load());
   vf::out().obs("condvar_prepark_delays", vf::shim::condvarPolicy().delayed.load());
+  vf::out().obs("post_unlock_holds", gPostUnlockHolds.load());
 #endif
   vf::out().flush();
   return 0;
